@@ -80,10 +80,15 @@ type vCluster struct {
 }
 
 func vNewCluster(t testing.TB, basePort, natsPort int, minISR int, tweak func(*Config)) *vCluster {
+	return vNewClusterIDs(t, []string{"a", "b", "c"}, basePort, natsPort, minISR, tweak)
+}
+
+// vNewClusterIDs: a cluster of the given servers (replication factor of createStream = their number).
+func vNewClusterIDs(t testing.TB, ids []string, basePort, natsPort int, minISR int, tweak func(*Config)) *vCluster {
 	opts := natsdTest.DefaultTestOptions
 	opts.Host = "127.0.0.1"
 	opts.Port = natsPort
-	c := &vCluster{t: t, ids: []string{"a", "b", "c"}, cfg: map[string]*Config{}, srv: map[string]*Server{}}
+	c := &vCluster{t: t, ids: ids, cfg: map[string]*Config{}, srv: map[string]*Server{}}
 	c.ns = natsdTest.RunServer(&opts)
 	dir, err := os.MkdirTemp("", "verif-c02-cluster-")
 	if err != nil {
@@ -213,7 +218,7 @@ func (c *vCluster) createStream(name string) error {
 	}
 	ctx, cancel := context.WithTimeout(context.Background(), 10*time.Second)
 	defer cancel()
-	_, err := ml.api.CreateStream(ctx, &client.CreateStreamRequest{Subject: name, Name: name, ReplicationFactor: 3, Partitions: 1})
+	_, err := ml.api.CreateStream(ctx, &client.CreateStreamRequest{Subject: name, Name: name, ReplicationFactor: int32(len(c.ids)), Partitions: 1})
 	if err != nil {
 		return err
 	}
